@@ -1,7 +1,7 @@
 (* Prop_C18.v — the property theorems of C18 and nothing else. *)
 From Coq Require Import List NArith ZArith Bool.
 Import ListNotations.
-From Verif Require Import Base.Val C18.Fs C18.FsLemmas C18.Model_C18 C18.Spec_C18 C18.Proofs_C18 C18.Exact_C18.
+From Verif Require Import Base.Val C18.Fs C18.FsLemmas C18.Model_C18 C18.Spec_C18 C18.Proofs_C18 C18.Exact_C18 C18.Shapes_C18 C18.Hardlinks_C18.
 
 (* frame: a path that no op of the merge names and whose inode no op writes is unchanged
    (for every contents set, offset and pre-existing filesystem) *)
@@ -116,3 +116,12 @@ Theorem existingdir_exact : forall s x cp m u g t s',
   (forall q, q <> cp -> lookup s' q = lookup s q).
 Proof. exact existingdir_exact_proof. Qed.
 Print Assumptions existingdir_exact.
+
+(* "files that shared an inode in the source are hardlinked": on the NoAlias domain two linkable
+   entries (same source inode key, owner, mode, mtime) name one inode after the merge *)
+Theorem merged_hardlinks_share_inode : forall i sf c x,
+  noalias i = true -> merge_err i = None -> run_opt (merge_ops i) (i_fs i) = Some sf ->
+  In c (cset_of i) -> In x (cset_of i) -> can_hl c x = true ->
+  exists j, ino_at sf (e_loc c) = Some j /\ ino_at sf (e_loc x) = Some j.
+Proof. exact merged_hardlinks_share_inode_proof. Qed.
+Print Assumptions merged_hardlinks_share_inode.
